@@ -7,6 +7,45 @@ namespace Juniper.Proofs.GroupLocal
 open Juniper.Facts Juniper.Gen.Group Juniper.Model.Group
 open Juniper.Proofs.SkeletonGroup
 
+/-! ## What the statement-level facts take for granted (audit C17 F1/F2/F3)
+
+The facts of `Juniper.Gen.Group` pin the *texts* `g.m.RLock()`, `g.wg.Add(1)`, `g.cancel()`, …; the
+model reads them as operations on a `sync.RWMutex`, a `sync.WaitGroup` and the cancel function of the
+context the spawned functions receive. That reading is true only if `g.m` *is* the standard library's
+`sync.RWMutex` (not a local no-op type), `g.wg` its `WaitGroup`, `NewGroup` stores the derived context
+and *its* cancel function, and every method has a pointer receiver (a value receiver locks a copy).
+`groupWiring_tie` pins exactly that; `threadStep_facts` (spawn) and `progs` (Stop / StopAndWait) are
+stated `under` it, so every C17 property theorem depends on it, and `stopAndWait_barrier` checks it
+once more in its own proof. -/
+theorem groupWiring_tie :
+    groupFields = [("ctx", "context.Context"), ("cancel", "context.CancelFunc"),
+                   ("m", "sync.RWMutex"), ("wg", "sync.WaitGroup")] ∧
+    groupImports = [("context", "context"), ("sync", "sync")] ∧
+    groupLocalTypes = [] ∧
+    groupReceivers = [("spawn", "*Group"), ("Do", "*Group"), ("Stop", "*Group"), ("StopAndWait", "*Group"),
+                      ("Trigger", "*Group"), ("Periodic", "*Group"), ("PeriodicOrTrigger", "*Group")] ∧
+    newGroupStmts = ["bgCtx, cancel := context.WithCancel(ctx)", "return &Group{ ctx: bgCtx, cancel: cancel, }"] := by
+  decide
+
+/-- `spawn`, statement by statement with identifiers (the skeleton `pskelGroupSpawn` has the kinds only):
+the bail-out releases the read lock and returns, `wg.Add(1)` occurs once, the spawned goroutine is
+`f(); g.wg.Done()` — `f` runs to its end *before* the wait group is released (a `go f()` inside, or
+`Done` first, breaks the barrier with every other fact unchanged: audit C17 F2). -/
+theorem spawnText_tie :
+    spawnStmts = ["g.m.RLock()", "if g.ctx.Err() != nil {", "g.m.RUnlock()", "return", "}", "g.wg.Add(1)",
+                  "g.m.RUnlock()", "go func() { f() g.wg.Done() }()"] ∧
+    spawnBailStmts = ["g.m.RUnlock()", "return"] ∧
+    spawnGoStmts = ["f()", "g.wg.Done()"] ∧
+    spawnAdds = 1 := by decide
+
+/-- the Trigger goroutine's body and `jitterDuration`, with identifiers. The model takes
+`jitterDuration(d, j)` to be `d + off` with `|off| ≤ |j|` (`armTimer`); that is a reading of this one
+expression (`rand.Float64()*2 - 1 ∈ [-1, 1)`), which is therefore pinned (audit C17 F3). -/
+theorem loopText_tie :
+    trigLoopStmts = ["for {", "if g.ctx.Err() != nil {", "return", "}", "select { case <-g.ctx.Done(): return case <-c: }",
+                     "f(g.ctx)", "}"] ∧
+    jitterDurationStmts = ["return d + time.Duration(float64(jitter)*((rand.Float64()*2)-1))"] := by decide
+
 /-! The closed forms of the four registration kinds hold for bodies whose control skeleton is the one
 `threadStep` hard-wires (`Proofs/SkeletonGroup.lean`): one `g.spawn(func …)` around one loop that runs
 `f` itself, the trigger function returned. -/
@@ -14,13 +53,14 @@ theorem loopOf_doOnce : loopOf .doOnce = { arms := [], checksCtxFirst := false, 
   under pskelGroupDo_tie (by decide)
 theorem loopOf_trigger : loopOf .trigger =
     { arms := [(.recv "g.ctx.Done()", .exit), (.recv "c", .fall)], checksCtxFirst := true,
-      resetAfterSelect := false, ok := true } := under pskelGroupTrigger_tie (by decide)
+      resetAfterSelect := false, ok := true } := under (And.intro pskelGroupTrigger_tie loopText_tie) (by decide)
 theorem loopOf_periodic : loopOf .periodic =
     { arms := [(.recv "g.ctx.Done()", .exit), (.recv "t.C", .fall)], checksCtxFirst := true,
-      resetAfterSelect := true, ok := true } := under pskelGroupPeriodic_tie (by decide)
+      resetAfterSelect := true, ok := true } := under (And.intro pskelGroupPeriodic_tie loopText_tie) (by decide)
 theorem loopOf_pot : loopOf .pot =
     { arms := [(.recv "g.ctx.Done()", .exit), (.recv "t.C", .reset), (.recv "c", .stopDrainReset)],
-      checksCtxFirst := true, resetAfterSelect := false, ok := true } := under pskelGroupPeriodicOrTrigger_tie (by decide)
+      checksCtxFirst := true, resetAfterSelect := false, ok := true } :=
+  under (And.intro pskelGroupPeriodicOrTrigger_tie loopText_tie) (by decide)
 
 theorem loopOf_ok (k : Kind) : (loopOf k).ok = true := by
   cases k
@@ -174,7 +214,8 @@ def StepFacts (v : View) (t t' : Thread) (e : Eff) : Prop :=
 
 theorem threadStep_facts {v : View} {t t' : Thread} {c : Nat} {off : Int} {e : Eff}
     (h : threadStep v t c off = some (t', e)) : StepFacts v t t' e := by
-  have hadd : spawnAddUnderRLock = true := under pskelGroupSpawn_tie (by decide)
+  have hadd : spawnAddUnderRLock = true :=
+    under (And.intro pskelGroupSpawn_tie (And.intro groupWiring_tie spawnText_tie)) (by decide)
   cases hpc : t.pc
   case atSelect =>
     obtain ⟨he, hc⟩ := atSelect_step hpc h
